@@ -46,35 +46,91 @@ register(Contract(
 # recorded by call-site instrumentation (ghost only).  PluginManager's own contracts (plugin_engine.py) turn
 # each dispatcher call into one event per enabled rule, in list order.
 CALLS = {"calls": "List[Any]"}
-CKEEP = "forall(lambda j: calls[j] == old(calls)[j], 0, old(len(calls)))"
+CKEEP = "forall(lambda j: calls[j] == old(calls[j]), 0, old(len(calls)))"
 SP_LINES = "source_provider._FileSourceProvider__read_lines"
 SP_INDEX = "source_provider._FileSourceProvider__read_index"
+REPORTED = "context._PluginScanContext__reported"
+PLISTS = ["self.__plugins._PluginManager__enabled_plugins_for_next_token", "self.__plugins._PluginManager__enabled_plugins_for_next_line",
+          "self.__plugins._PluginManager__enabled_plugins_for_completed_file"]
 SCAN_CTX = ("context.current_fix_line is None and not context.in_fix_mode and context._PluginScanContext__fix_token_map is None "
-            "and context._PluginScanContext__replace_token_list is None")
+            "and context._PluginScanContext__replace_token_list is None and "
+            + " and ".join(f"{REPORTED} is not {p}" for p in PLISTS + ["source_provider._FileSourceProvider__read_lines"]))
+
+SCAN_FRAME = (f"same_except('$list', {REPORTED}) and same_except('$dict') and same_except('_PluginScanContext__current_fix_line') "
+              f"and same_except('_PluginScanContext__last_line_fixed') and same_except('line_number', context)")
 
 register(Contract(
     key=FSH + "__process_lines_in_file", properties=["C14", "C07", "C15"],
     ghost=CALLS,
-    requires=[f"{SP_INDEX} == 0", f"implies(not context_map, {SCAN_CTX})", f"{SP_LINES} is not calls"],
+    requires=[f"{SP_INDEX} == 0", f"implies(context_map is None, {SCAN_CTX})", f"{SP_LINES} is not calls"],
     calls={
         "self.__plugins.next_line": (PM + "next_line", ["calls.append(('line', context, line_number, line, is_last_line_in_file))"]),
         "self.__plugins.completed_file": (PM + "completed_file", ["calls.append(('done', context, line_number))"]),
     },
-    ensures=[f"implies(old(not context_map), len(calls) == old(len(calls)) + len({SP_LINES}) + 1)",
-             f"implies(old(not context_map), forall(lambda k: calls[old(len(calls)) + k] == ('line', context, k + 1, {SP_LINES}[k], k + 1 >= len({SP_LINES})), 0, len({SP_LINES})))",
-             f"implies(old(not context_map), calls[old(len(calls)) + len({SP_LINES})] == ('done', context, len({SP_LINES}) + 1))",
-             f"implies(old(not context_map), {CKEEP})"],
-    raises=[Raises("BadPluginError"), Raises("OSError", when="context_map or context.in_fix_mode"),
-            Raises("AssertionError", when="context_map or context.in_fix_mode")],
-    modifies=["*"],
+    ensures=[f"implies(context_map is None, len(calls) == old(len(calls)) + len({SP_LINES}) + 1)",
+             f"implies(context_map is None, forall(lambda k: calls[old(len(calls)) + k] == ('line', context, k + 1, {SP_LINES}[k], k + 1 >= len({SP_LINES})), 0, len({SP_LINES})))",
+             f"implies(context_map is None, calls[old(len(calls)) + len({SP_LINES})] == ('done', context, len({SP_LINES}) + 1))",
+             f"implies(context_map is None, {CKEEP})",
+             f"implies(context_map is None, len({SP_LINES}) == old(len({SP_LINES})))",
+             f"implies(context_map is None, forall(lambda k: {SP_LINES}[k] is old({SP_LINES}[k]), 0, len({SP_LINES})))"],
+    raises=[Raises("BadPluginError"), Raises("OSError", when="context_map is not None or context.in_fix_mode"),
+            Raises("AssertionError", when="context_map is not None or context.in_fix_mode")],
+    modifies=["$rule_state", "context._PluginScanContext__reported.$list", "context.line_number",
+              "source_provider._FileSourceProvider__read_index", "calls.$list"],
+    cmodifies=[("context_map is not None or context.in_fix_mode", ["*"])],
     loops={0: Loop(invariant=[
         f"line_number >= 1", f"{SP_INDEX} >= 0",
-        f"implies(next_line is not None, {SP_INDEX} == line_number and line_number <= len({SP_LINES}) and next_line is {SP_LINES}[line_number - 1])",
-        f"implies(next_line is None, line_number == len({SP_LINES}) + 1)",
-        f"len({SP_LINES}) == old(len({SP_LINES}))", f"forall(lambda k: {SP_LINES}[k] is old({SP_LINES})[k], 0, len({SP_LINES}))",
-        f"implies(old(not context_map), not context_map and {SCAN_CTX})",
-        f"implies(old(not context_map), len(calls) == old(len(calls)) + line_number - 1)",
-        f"implies(old(not context_map), forall(lambda k: calls[old(len(calls)) + k] == ('line', context, k + 1, {SP_LINES}[k], k + 1 >= len({SP_LINES})), 0, line_number - 1))",
-        f"implies(old(not context_map), {CKEEP})",
-    ], variant=f"len({SP_LINES}) + 1 - line_number")},
+        f"implies(context_map is None and next_line is not None, {SP_INDEX} == line_number and line_number <= len({SP_LINES}) and next_line is {SP_LINES}[line_number - 1])",
+        f"implies(context_map is None and next_line is None, line_number == len({SP_LINES}) + 1)",
+        f"implies(context_map is None, len({SP_LINES}) == old(len({SP_LINES})))",
+        f"implies(context_map is None, forall(lambda k: {SP_LINES}[k] is old({SP_LINES}[k]), 0, len({SP_LINES})))",
+        f"implies(context_map is None, {SCAN_CTX})",
+        f"implies(context_map is None, len(calls) == old(len(calls)) + line_number - 1)",
+        f"implies(context_map is None, forall(lambda k: calls[old(len(calls)) + k] == ('line', context, k + 1, {SP_LINES}[k], k + 1 >= len({SP_LINES})), 0, line_number - 1))",
+        f"implies(context_map is None, {CKEEP})",
+        f"implies(context_map is None, {SCAN_FRAME})",
+    ])},  # termination: the loop ends when the provider is exhausted (no variant stated: in fix mode the callee's frame is coarse)
+))
+
+TOKS = "actual_tokens"
+HAS_PRAGMA = f"(len({TOKS}) > 0 and {TOKS}[len({TOKS}) - 1].is_pragma)"
+NP = f"(1 if {HAS_PRAGMA} else 0)"          # number of 'pragmas' events
+NT = f"(len({TOKS}) - {NP})"                # number of tokens delivered to rules
+BASE = "old(len(calls))"
+
+register(Contract(
+    key=FSH + "__process_file_scan", properties=["C14", "C11", "C15"],
+    ghost=CALLS,
+    requires=[f"{SP_INDEX} == 0", SCAN_CTX, f"{SP_LINES} is not calls", f"{TOKS} is not {REPORTED}",
+              f"{TOKS} is not {SP_LINES}"],
+    calls={
+        "self.__plugins.compile_pragmas": (PM + "compile_pragmas", ["calls.append(('pragmas', scan_file, pragma_lines))"]),
+        "self.__plugins.next_token": (PM + "next_token", ["calls.append(('tok', context, token))"]),
+        "self.__process_lines_in_file": FSH + "__process_lines_in_file",
+    },
+    ensures=[
+        f"len(calls) == {BASE} + old({NP} + {NT} + len({SP_LINES})) + 1",
+        # the pragma token is taken off the stream and compiled BEFORE any token is delivered; it is never delivered
+        f"implies(old({HAS_PRAGMA}), calls[{BASE}] == ('pragmas', next_file_name, old({TOKS}[len({TOKS}) - 1].pragma_lines)))",
+        f"forall(lambda k: calls[{BASE} + old({NP}) + k] == ('tok', context, old({TOKS}[k])), 0, old({NT}))",
+        f"forall(lambda k: calls[{BASE} + old({NP} + {NT}) + k] == ('line', context, k + 1, old({SP_LINES}[k]), k + 1 >= old(len({SP_LINES}))), 0, old(len({SP_LINES})))",
+        f"calls[{BASE} + old({NP} + {NT} + len({SP_LINES}))] == ('done', context, old(len({SP_LINES})) + 1)",
+        CKEEP,
+    ],
+    raises=[Raises("BadPluginError")],
+    modifies=["*"],
+    loops={0: Loop(index="idx", invariant=[
+        f"len(actual_tokens) == old({NT})", f"forall(lambda k: actual_tokens[k] is old({TOKS}[k]), 0, len(actual_tokens))",
+        f"len(calls) == {BASE} + old({NP}) + idx",
+        f"implies(old({HAS_PRAGMA}), calls[{BASE}] == ('pragmas', next_file_name, old({TOKS}[len({TOKS}) - 1].pragma_lines)))",
+        f"forall(lambda k: calls[{BASE} + old({NP}) + k] == ('tok', context, actual_tokens[k]), 0, idx)",
+        CKEEP, SCAN_CTX, f"{SP_INDEX} == 0", f"{SP_LINES} is old({SP_LINES})", f"actual_tokens is not {REPORTED}",
+        f"len({SP_LINES}) == old(len({SP_LINES}))", f"forall(lambda k: {SP_LINES}[k] is old({SP_LINES}[k]), 0, len({SP_LINES}))",
+    ])},
+))
+
+register(Contract(
+    key=PM + "compile_pragmas", properties=["C11"],
+    raises=[],
+    modifies=["self.__document_pragmas.$dict", "self.__document_pragma_ranges.$list", "number_of_pragma_failures"],
 ))
